@@ -394,7 +394,7 @@ void heap_op(const std::vector<std::string> &w, out &o)
         size_t fl_before = 0;
         for (struct __freelist *f = FLP; f && fl_before < 100000; f = f->nx) fl_before++;
         char *brk_before = BRK;
-        std::string ret = "-";
+        std::string ret = "-", pre;
         int slot = -1;
         if (op == "m")
         {
@@ -556,6 +556,11 @@ void heap_op(const std::vector<std::string> &w, out &o)
                     size_t keep = std::min(old.n, n);
                     std::string why;
                     if (!heap_intact(old, keep, p, why)) o.fail("realloc lost the common prefix at " + why);
+                    // round 3b: the bytes themselves are compared with the model (the driver executes the model's
+                    // stores - the memcpy of the move path - on the old block's bytes): d -> (31 d + byte) mod 2^32
+                    uint32_t dg = 0;
+                    for (size_t i = 0; i < keep; i++) dg = dg * 31u + (uint8_t)p[i];
+                    pre = " pre=" + s((long long)dg);
                     Blk b{p, n, 0, hdr_of(p)};
                     if (hdr_of(p) < n)
                     {
@@ -593,7 +598,7 @@ void heap_op(const std::vector<std::string> &w, out &o)
             return;
         }
         FreeList fl = walk_freelist(o);
-        o.result = heap_line(ret, fl);
+        o.result = heap_line(ret, fl) + pre;
         heap_oracle(o, -1, fl);
         return;
 }
